@@ -6,6 +6,9 @@ from vf.engine import Abort
 from vf import hook
 from vf.oracles import welltyped
 
+# no symbolic content in these harnesses: exhaustive enumeration by the engine
+LEVEL = "exploration"
+
 FUNCS = ["discopy.grammar.pregroup.eager_parse", "discopy.grammar.pregroup.brute_force",
          "discopy.grammar.cfg.CFG.generate", "discopy.grammar.cfg.Word.__init__",
          "discopy.grammar.ccg.cat2ty", "discopy.grammar.ccg.tree2diagram",
